@@ -241,6 +241,10 @@ fn get_bodyform_from_arginput(l: &Srcloc, arginput: &ArgInputs) -> Rc<BodyForm> 
 //
 // It's possible this will result in irreducible (unknown at compile time)
 // argument expressions.
+//
+// When a name occurs more than once in the argument spec, the first (outermost,
+// leftmost) occurrence is the one that binds, as in generated code: the other
+// parts of the spec are therefore processed before it.
 pub fn create_argument_captures(
     argument_captures: &mut HashMap<Vec<u8>, Rc<BodyForm>>,
     formed_arguments: &ArgInputs,
@@ -251,8 +255,9 @@ pub fn create_argument_captures(
         (ArgInputs::Whole(bf), SExp::Cons(l, f, r)) => {
             match (is_at_capture(f.clone(), r.clone()), bf.borrow()) {
                 (Some((capture, substructure)), BodyForm::Quoted(SExp::Cons(_, _, _))) => {
+                    create_argument_captures(argument_captures, formed_arguments, substructure)?;
                     argument_captures.insert(capture, bf.clone());
-                    create_argument_captures(argument_captures, formed_arguments, substructure)
+                    Ok(())
                 }
                 (None, BodyForm::Quoted(SExp::Cons(_, fa, ra))) => {
                     // Argument destructuring splits a quoted sexp that can itself
@@ -261,18 +266,19 @@ pub fn create_argument_captures(
                     let ra_borrowed: &SExp = ra.borrow();
                     create_argument_captures(
                         argument_captures,
-                        &ArgInputs::Whole(Rc::new(BodyForm::Quoted(fa_borrowed.clone()))),
-                        f.clone(),
+                        &ArgInputs::Whole(Rc::new(BodyForm::Quoted(ra_borrowed.clone()))),
+                        r.clone(),
                     )?;
                     create_argument_captures(
                         argument_captures,
-                        &ArgInputs::Whole(Rc::new(BodyForm::Quoted(ra_borrowed.clone()))),
-                        r.clone(),
+                        &ArgInputs::Whole(Rc::new(BodyForm::Quoted(fa_borrowed.clone()))),
+                        f.clone(),
                     )
                 }
                 (Some((capture, substructure)), bf) => {
+                    create_argument_captures(argument_captures, formed_arguments, substructure)?;
                     argument_captures.insert(capture, Rc::new(bf.clone()));
-                    create_argument_captures(argument_captures, formed_arguments, substructure)
+                    Ok(())
                 }
                 (None, bf) => {
                     // Argument destructuring splits a value that couldn't
@@ -282,19 +288,19 @@ pub fn create_argument_captures(
                         argument_captures,
                         &ArgInputs::Whole(Rc::new(make_operator1(
                             l,
-                            "f".to_string(),
+                            "r".to_string(),
                             Rc::new(bf.clone()),
                         ))),
-                        f.clone(),
+                        r.clone(),
                     )?;
                     create_argument_captures(
                         argument_captures,
                         &ArgInputs::Whole(Rc::new(make_operator1(
                             l,
-                            "r".to_string(),
+                            "f".to_string(),
                             Rc::new(bf.clone()),
                         ))),
-                        r.clone(),
+                        f.clone(),
                     )
                 }
             }
@@ -304,11 +310,12 @@ pub fn create_argument_captures(
                 let bfa = get_bodyform_from_arginput(l, af);
                 let bfb = get_bodyform_from_arginput(l, ar);
                 let fused_arguments = Rc::new(make_operator2(l, "c".to_string(), bfa, bfb));
+                create_argument_captures(argument_captures, formed_arguments, substructure)?;
                 argument_captures.insert(capture, fused_arguments);
-                create_argument_captures(argument_captures, formed_arguments, substructure)
+                Ok(())
             } else {
-                create_argument_captures(argument_captures, af, f.clone())?;
-                create_argument_captures(argument_captures, ar, r.clone())
+                create_argument_captures(argument_captures, ar, r.clone())?;
+                create_argument_captures(argument_captures, af, f.clone())
             }
         }
         (ArgInputs::Whole(x), SExp::Atom(_, name)) => {
